@@ -14,7 +14,7 @@ def ordered(I):
     return forall2(0, length(I), lambda i, j: implies(i < j, I[i, 1] <= I[j, 0]))
 
 
-@contract("mir_eval.util.validate_intervals", props="C14")
+@contract("mir_eval.util.validate_intervals", props="C14 C20")
 def validate_intervals(intervals: Arr(Real, None, 2)):
     raises(ValueError, when=not forall(0, length(intervals), lambda i: 0 <= intervals[i, 0] and 0 <= intervals[i, 1]
                                        and intervals[i, 0] < intervals[i, 1]), props="C14")
